@@ -250,6 +250,7 @@ func checkC14(p *Prog, r *Report) {
 			aminoNames[name] = append(aminoNames[name], mn)
 		}
 	}
+	checkNullableFields(p, r, kp)
 	for name, ts := range aminoNames {
 		sort.Strings(ts)
 		r.Check(len(ts) == 1, kp("ENUM", "amino-name:"+name), "amino names are pairwise distinct", "x/*/types/codec.go", ts[0], fmt.Sprintf("amino name %q is used for %v: their amino-JSON sign bytes carry the same type tag", name, ts))
